@@ -28,7 +28,7 @@ RULE = (
 REQUIRED = ["history.reports_succeed", "history.live_set", "history.solve", "history.rail_rep", "history.params",
             "history.phases", "history.save", "history.structure", "shown.params", "shown.limits", "shown.phases",
             "detour.extra_add_delete", "detour.replace_kind", "detour.rename_late", "detour.via_intermediate",
-            "detour.mux_input_reparented", "detour.move"]
+            "detour.mux_input_reparented", "detour.move", "detour.scratch_until_end"]
 SIZES = {"quick": 110, "thorough": 900}
 ASSUMPTIONS = ["numeric cells are compared to 1e-9 relative (summation order of sibling currents depends on edge order)",
                "a detour history in which the code rejects a call is outside the quantifier (successful histories) and is "
@@ -97,6 +97,14 @@ def plan_history(rng, T, rate):
     start = entry(first)
     ops.append(("start", start, first.get("group", ""), first.get("rail", "")))
     cur[first["name"]] = first["name"]
+    scratch = []
+    if rng.random() < 0.35:
+        # scratch components added right at the start and deleted at the very end: their node indices stay free
+        for g_ in range(rng.choice([1, 2, 3])):
+            sn = "~s%d" % g_
+            ops.append({"op": "add_comp", "parent": first["name"], "comp": hist.comp_entry(rng, rng.choice(["ILoad", "RLoss", "Converter"]), sn)})
+            scratch.append(sn)
+        used.append("scratch_until_end")
     for c in order[1:]:
         n = c["name"]
         parents_now = [cur[p] for p in c["parents"]]
@@ -206,6 +214,8 @@ def plan_history(rng, T, rate):
     for c in order:
         if c.get("phase") is not None:
             ops.append({"op": "set_comp_phases", "name": c["name"], "conf": copy.deepcopy(c["phase"])})
+    for sn in scratch:
+        ops.append({"op": "del_comp", "name": sn, "del_childs": True})
     return ops, used
 
 
@@ -291,7 +301,7 @@ def run(ctx, case):
         if resE["tree"][0] == "ok":
             txt = resE["tree"][1]
             missing = [n for n in names if n not in txt]
-            ghosts = [t for t in ("~x", "~t_", "~i") if t in txt]
+            ghosts = [t for t in ("~x", "~t_", "~i", "~s") if t in txt]
             ctx.check("history.live_set", not missing and not ghosts, dict(det, tree_missing=missing, ghosts=ghosts))
         # values equal to the freshly built system
         for name, keys in (("solve", ("Component", "Phase")), ("rail_rep", ("Rail", "Phase", "Component")),
